@@ -9,6 +9,8 @@ on the same request and reports every line on which they differ:
 ends with   SUMMARY lines=<n> corr=<n> spec=<n> mon=<n> modelspec=<n> bad=<n>
 -/
 import Midi.Driver.Msg
+import Midi.Driver.Ctors
+import Midi.Driver.Nums
 open Midi Midi.Driver
 
 structure St where
@@ -44,13 +46,57 @@ def evalReq (req : List String) : Option (Obs × Option Obs) :=
       let dm := blkDigest mask (modelMsg impl) s
       let ds := blkDigest mask (specMsgLine impl) s
       some ([(dm.toNat : Int)], some [(ds.toNat : Int)])
+  | ["mk", impl, k, a, b, c] => do
+      let k ← Ctor.ofName? k
+      let (a, b, c) := (← nat? a, ← nat? b, ← nat? c)
+      some (modelMk impl k a b c, some (specMk impl k a b c))
+  | ["mkblk", impl, k, a] => do
+      let k ← Ctor.ofName? k
+      let a ← nat? a
+      let dm := mkblkDigest (modelMk impl) k a
+      let ds := mkblkDigest (specMk impl) k a
+      some ([(dm.toNat : Int)], some [(ds.toNat : Int)])
+  | ["gen", impl, f, t, c, a, b] => do
+      let (t, c, a, b) := (← nat? t, ← nat? c, ← nat? a, ← nat? b)
+      some (← modelGen impl f t c a b, some (specGen impl f t c a b))
+  | ["genblk", impl, f, t, c] => do
+      let (t, c) := (← nat? t, ← nat? c)
+      let _ ← MsgType.ofU8 t
+      let dm := genblkDigest (fun a b => (modelGen impl f t c a b).getD []) f t
+      let ds := genblkDigest (fun a b => specGen impl f t c a b) f t
+      some ([(dm.toNat : Int)], some [(ds.toNat : Int)])
+  | ["conv", row, x] => do
+      let (row, x) := (← nat? row, ← x.toInt?)
+      some (← modelConv row x, specConv row x)
+  | ["new", cfg, t, v] => do
+      let (t, v) := (← nat? t, ← nat? v)
+      some (← modelNew cfg t v, specNew t v)
+  | ["parse", t, h] => do
+      let t ← nat? t
+      let s ← unhex h
+      some (← modelParse t s, specParse t s)
+  | ["display", _t, v] => do
+      let v ← nat? v
+      some (modelDisplay v, some (specDisplay v))
+  | ["ord", _t, a, b] => do
+      let (a, b) := (← nat? a, ← nat? b)
+      some (modelOrd a b, some (modelOrd a b))
+  | ["consts", t] => do
+      let t ← nat? t
+      some (← modelConsts t, specConsts t)
+  | ["cnconst", i] => do
+      let i ← nat? i
+      some (← modelCnConst i, modelCnConst i)
+  | ["tu", f, x, y, z] => do
+      let (x, y, z) := (← nat? x, ← nat? y, ← nat? z)
+      some (← modelTu f x y z, specTu f x y z)
   | _ => none
 
 def maxPrint : Nat := 200
 
 def step (st : St) (line : String) : St × List String :=
   let line := line.trimAscii.toString
-  if line.isEmpty then (st, []) else
+  if line.isEmpty || line.startsWith "#" then (st, []) else
   let st := { st with lines := st.lines + 1 }
   match line.splitOn " | " with
   | [reqS, implS] =>
